@@ -43,7 +43,13 @@ func (s *service) Classify(env envs.Environment, input string, logHTTP flows.HTT
 	for name, intent := range response.Prediction.Intents {
 		result.Intents = append(result.Intents, flows.ExtractedIntent{Name: name, Confidence: intent.Score})
 	}
-	sort.SliceStable(result.Intents, func(i, j int) bool { return result.Intents[i].Confidence.GreaterThan(result.Intents[j].Confidence) })
+	// intents come as a map so order those with equal scores by name
+	sort.SliceStable(result.Intents, func(i, j int) bool {
+		if result.Intents[i].Confidence.Equal(result.Intents[j].Confidence) {
+			return result.Intents[i].Name < result.Intents[j].Name
+		}
+		return result.Intents[i].Confidence.GreaterThan(result.Intents[j].Confidence)
+	})
 
 	for name, matches := range response.Prediction.Entities.Instance {
 		var entities []flows.ExtractedEntity
